@@ -149,6 +149,12 @@ def gen_case(seed, tier):
            'dircollide': rng.random() < 0.5, 'post_stmt_yield': rng.random() < 0.3, 'yield_clock': rng.random() < 0.5,
            'clock': {'mode': 'frozen'}, 'timeout': rng.choice((60, 60, 0.05)) if target != 'fanout' else 0.010,
            'shards': rng.choice((2, 3)), 'kind': 'conc', 'step_cap': 200000}
+    if target == 'fanout' and rng.random() < 0.5:
+        # slow clients: a busy timeout may expire although somebody could still run (otherwise, in discrete-event time, the client
+        # that got the first shard of a block always gets the others before anybody's attempt on a busy shard gives up)
+        cfg['timer_race_p'] = rng.choice((0.1, 0.3))
+        cfg['step_cap'] = 40000      # (a block that never gets its shards spins: found out sooner)
+        cfg['line_p'] = 0.0
     return {'seed': seed, 'cfg': cfg, 'progs': progs, 'faults': []}
 
 
